@@ -268,7 +268,7 @@ Section A64Frame.
 Variable f : frame_in.
 Hypothesis WF : wf_in f.
 Hypothesis HA : fi_arch f = A64.
-Hypothesis HV : qget (cc_srsize (fi_cc f)) 1 = 8.          (* cdecl-like conventions: D registers are what is preserved *)
+Hypothesis HV : qget (cc_srsize (fi_cc f)) 1 = 8 \/ fin_saved f 1 = 0.   (* D registers are what the emitters save: 8-byte vector saves, or none *)
 Hypothesis HNDA : fin_has_da f = false.                     (* DESIGN 7.31: alignment > 16 is not implemented *)
 Hypothesis HSA : fi_sa_reg f = id_bad \/ fi_sa_fix f = true.  (* pinned tree: the prolog never sets up an SA register; fixed tree: any *)
 Hypothesis HADJ : fo_stack_adj (finalize f) <= 16777215.    (* larger adjustments are refused with an error *)
@@ -281,7 +281,7 @@ Lemma a64_cc :
   cc_natural cc = 16 /\ cc_sralign cc = mkq 16 16 8 1 /\ q2 (cc_srsize cc) = 0 /\ q3 (cc_srsize cc) = 0 /\
   0 <= q0 (cc_preserved cc) < 2 ^ 31 /\ Z.testbit (q0 (cc_preserved cc)) 29 = true /\ Z.testbit (q0 (cc_preserved cc)) 30 = true /\
   0 <= q1 (cc_preserved cc) < 2 ^ 32 /\ q2 (cc_preserved cc) = 0 /\ q3 (cc_preserved cc) = 0.
-Proof. apply (wc_a64 _ _ (wi_cc f WF) HA). Qed.
+Proof. pose proof (wc_a64 _ _ (wi_cc f WF) HA) as H. fold cc in H. tauto. Qed.
 
 Lemma srs0 : qget (cc_srsize cc) 0 = 8.
 Proof. pose proof (wc_rs _ _ (wi_cc f WF)) as H. rewrite HA in H. exact H. Qed.
@@ -311,13 +311,31 @@ Qed.
 Lemma gpt_eq : a64_gp_total f o = gpt.
 Proof. unfold a64_gp_total, gpt, gps. fold cc. rewrite srs0. lia. Qed.
 
-Lemma vps_eq : vps = a64_pairs vec_ids gpt 16.
+Lemma bits_of_0 n : bits_of n 0 = [].
 Proof.
-  unfold vps, a64_vec_pairs, a64_group_pairs, vec_ids, m1. cbn [Z.eqb Pos.eqb andb]. rewrite HV, gpt_eq. reflexivity.
+  destruct (bits_of n 0) as [|x l] eqn:E; auto. exfalso.
+  assert (H : In x (bits_of n 0)) by (rewrite E; left; auto). apply bits_of_In in H. destruct H as [_ H]. rewrite Z.bits_0 in H. discriminate.
 Qed.
 
+Lemma vec_ids_nil : fin_saved f 1 = 0 -> vec_ids = [].
+Proof. intros H. unfold vec_ids, m1. change (saved_regs f o 1) with (fin_saved f 1). rewrite H. apply bits_of_0. Qed.
+
+Lemma vps_eq : vps = a64_pairs vec_ids gpt 16.
+Proof.
+  destruct HV as [H|H].
+  - unfold vps, a64_vec_pairs, a64_group_pairs, vec_ids, m1. cbn [Z.eqb Pos.eqb andb]. rewrite H, gpt_eq. reflexivity.
+  - rewrite (vec_ids_nil H). unfold vps, a64_vec_pairs, a64_group_pairs. cbn [Z.eqb Pos.eqb andb].
+    change (saved_regs f o 1) with (fin_saved f 1). rewrite H, bits_of_0. reflexivity.
+Qed.
+
+Lemma vec_term : popcnt (fin_saved f 1) * qget (cc_srsize (fi_cc f)) 1 = popcnt (fin_saved f 1) * 8.
+Proof. destruct HV as [H|H]; [rewrite H; reflexivity | rewrite H; reflexivity]. Qed.
+
 Lemma total_eq : a64_total f o = total.
-Proof. unfold a64_total, total. rewrite gpt_eq. rewrite HV. fold vps. lia. Qed.
+Proof.
+  unfold a64_total, total. rewrite gpt_eq. fold vps. destruct HV as [H|H]; [rewrite H; lia|].
+  rewrite vps_eq, (vec_ids_nil H). cbn [a64_pairs length]. lia.
+Qed.
 
 Lemma gps_seq : pairs_seq gps 0.
 Proof. rewrite gps_eq. destruct (fi_has_fp f); [cbn; split; auto|]; apply a64_pairs_seq. Qed.
@@ -819,7 +837,9 @@ Proof.
     + assert (Hs : Z.testbit (saved_regs f o g) r = true) by (unfold saved_regs; rewrite Z.land_spec, Hd; exact Hp).
       destruct Hg as [-> | ->].
       * rewrite srs0. rewrite (Hv3 r (m0_in_gps r Hs)). apply trunc_idem'. lia.
-      * fold cc in HV. rewrite HV.
+      * assert (HV8 : qget (cc_srsize cc) 1 = 8).
+        { destruct HV as [H|H]; [exact H|]. exfalso. change (saved_regs f o 1) with (fin_saved f 1) in Hs. rewrite H, Z.bits_0 in Hs. discriminate. }
+        rewrite HV8.
         assert (Hr32 : r < 32).
         { destruct (Z_lt_le_dec r 32); auto. cbn [qget Z.eqb Pos.eqb] in Hp. rewrite (testbit_above _ 32 r Hp1) in Hp by lia. discriminate. }
         assert (Hin : In r (pairs_regs vps)) by (rewrite vps_regs; unfold vec_ids, m1; apply bits_of_In; split; [cbn; lia | exact Hs]).
@@ -849,7 +869,7 @@ Lemma total_pp : total = fin_pp f.
 Proof.
   unfold fin_pp. rewrite HA. cbn [map fold_right has_push_pop Z.eqb Pos.eqb orb]. unfold fin_group_size. fold cc.
   destruct a64_cc as [_ [Hal' _]]. rewrite Hal'. cbn [qget Z.eqb Pos.eqb q0 q1]. rewrite !Z.add_0_r.
-  change (q0 (cc_srsize cc)) with (qget (cc_srsize cc) 0). rewrite srs0. change (q1 (cc_srsize cc)) with (qget (cc_srsize (fi_cc f)) 1). rewrite HV.
+  change (q0 (cc_srsize cc)) with (qget (cc_srsize cc) 0). rewrite srs0. change (q1 (cc_srsize cc)) with (qget (cc_srsize (fi_cc f)) 1). rewrite vec_term.
   unfold total. f_equal.
   - unfold gpt. rewrite gps_eq. unfold popcnt. change (fin_saved f 0) with m0.
     destruct (fi_has_fp f) eqn:Hfp.
@@ -928,3 +948,35 @@ Proof.
 Qed.
 
 End A64Frame.
+
+(* ------------------------------------------------------------------ every frame the (proposed) refusal accepts is in scope *)
+Lemma a64_realisable_scope f : wf_in f -> fi_arch f = A64 -> a64_realisable f = true ->
+  (qget (cc_srsize (fi_cc f)) 1 = 8 \/ fin_saved f 1 = 0) /\ fin_has_da f = false.
+Proof.
+  intros WF HA H. unfold a64_realisable in H. apply andb_true_iff in H. destruct H as [H1 H2].
+  apply negb_true_iff in H1. split; auto. apply orb_true_iff in H2. destruct H2 as [H2|H2].
+  - left. apply Z.leb_le in H2. pose proof (wc_a64 _ _ (wi_cc f WF) HA) as W.
+    assert (E : q1 (cc_srsize (fi_cc f)) = 8 \/ q1 (cc_srsize (fi_cc f)) = 16) by tauto.
+    change (qget (cc_srsize (fi_cc f)) 1) with (q1 (cc_srsize (fi_cc f))) in *. lia.
+  - right. apply Z.eqb_eq in H2. exact H2.
+Qed.
+
+Theorem a64_roundtrip_accepted f : wf_in f -> fi_arch f = A64 -> a64_realisable f = true ->
+  (fi_sa_reg f = id_bad \/ fi_sa_fix f = true) -> fo_stack_adj (finalize f) <= 16777215 ->
+  forall s0,
+  let o := finalize f in let sp0 := st_reg s0 0 31 in
+  st_ret s0 = None -> sp0 mod 16 = 0 -> 0 <= st_reg s0 0 30 < 2 ^ 64 ->
+  exists s1, run A64 (fst (prolog f o)) s0 = Some s1 /\ snd (prolog f o) = true /\
+    st_reg s1 0 31 = a64_sp_body f sp0 /\ st_ret s1 = None /\
+    a64_sp_body f sp0 mod fo_final_align o = 0 /\ a64_sp_body f sp0 + fo_sa_from_sp o = sp0 /\
+    (fi_sa_fix f = true -> fi_has_fp f = true -> st_reg s1 0 29 + fo_sa_from_sa o = sp0) /\
+    (fin_sa f <> 31 -> st_reg s1 0 (fin_sa f) + fo_sa_from_sa o = sp0) /\
+    forall s2, a64_body_ok f s0 s1 s2 ->
+      exists s3, run A64 (fst (epilog f o)) s2 = Some s3 /\ snd (epilog f o) = true /\
+        st_ret s3 = Some (st_reg s0 0 30) /\ st_reg s3 0 31 = sp0 /\
+        (forall g r, Z.testbit (qget (cc_preserved (fi_cc f)) g) r = true ->
+                     trunc (qget (cc_srsize (fi_cc f)) g) (st_reg s3 g r) = trunc (qget (cc_srsize (fi_cc f)) g) (st_reg s0 g r)).
+Proof.
+  intros WF HA HR HSA HADJ. destruct (a64_realisable_scope f WF HA HR) as [HV HNDA].
+  exact (a64_roundtrip_sec f WF HA HV HNDA HSA HADJ).
+Qed.
